@@ -674,6 +674,7 @@ theorem goodToken_tokenExchange {x : EPProvider} {now : Int} {o : EPOracles} {r 
     split at hval; · simp at hval
     split at hval; · simp at hval
     split at hval; · simp at hval
+    split at hval; · simp at hval
     rename_i c' hauth
     split at hval; · simp at hval
     rename_i hgrant
@@ -1363,6 +1364,7 @@ theorem tokenExchangeHandler_shape {x : EPProvider} {now : Int} {o : EPOracles} 
     (GenEP.tokenExchangeHandler now o (EP.webServer x) r c = .ok (.tokens Const.GrantTypeTokenExchange c.id) ∧
       x.storage.is_TokenExchangeStorage = true) := by
   rw [SpecEP.tokenExchangeHandler_eq]; unfold SpecEP.tokenExchangeHandler
+  split; · exact Or.inl ⟨_, rfl⟩
   split; · exact Or.inl ⟨_, rfl⟩
   split; · exact Or.inl ⟨_, rfl⟩
   split; · exact Or.inl ⟨_, rfl⟩
